@@ -354,6 +354,7 @@ func (e *Engine) runPath(sol *Solver, fn *ssa.Function, decisions []Dec) (res Pa
 	sol.Push()
 	defer func() {
 		r := recover()
+		ex.killThreads()
 		res.Decisions = ex.decisions
 		res.Viols = ex.viols
 		res.Steps = ex.steps
